@@ -19,7 +19,7 @@ necessary for that exactness — breaking one makes the construction wrong on so
 """
 import re
 
-from ..mir import parse_at, Mir, Exprs, canon, Call, natural_loops, control_deps_transitive, short_path
+from ..mir import parse_at, Mir, Exprs, E, canon, Call, natural_loops, control_deps_transitive, short_path, inline_helpers, closure_loop_context, lift_closure_canon
 from ..report import Result, finish
 
 
@@ -211,6 +211,31 @@ def run_rules(ctx, res):
             res.inst(N2, "pass|%s" % f.name, f.where, True, "iterates %s, ORs %d flag(s), loop exits: %d" % (it, len(ors), len(exits)))
             if not okp:
                 res.violate(N2, "pass|%s" % f.name, f.where, "a fixpoint pass must visit every rule (`for rule in self.rules`, single exit at exhaustion) and OR each rule's flag into the result")
+        # the same pass written as a fold: `rules.iter().fold(DidChange(false), |mut changed, rule| { changed |= step(rule, ..); changed })`
+        for f in first:
+            if not (f.output and f.output["head"].endswith("::DidChange")) or f.key == accum.key or natural_loops(f) or f in passes or f.kind == "Closure":
+                continue
+            r = canon(Exprs(f).local(0))
+            mf = re.match(r"^Iterator(?:@\w+)?::fold\((?:slice::iter|IntoIterator@\w+::into_iter)\(param1\.rules\), DidChange::DidChange\{const\(false\)\}, [\w:]+::(\{closure#\d+\})\{.*\}\)$", r)
+            if not mf:
+                continue
+            cl = [g for g in mir.fns.values() if g.kind == "Closure" and g.parent == f.key and g.path.endswith(mf.group(1))]
+            okp = False
+            if len(cl) == 1:
+                g = cl[0]
+                ors = [c for c in g.calls() if "BitOrAssign" in (c.rpath or "") or "BitOr" in (c.rpath or "")]
+                branches = [b for b in g.blocks if not b["cleanup"] and b["term"]["k"] == "switch"]
+                gr = canon(Exprs(g).local(0))
+                # every rule's flag is ORed into the accumulator, unconditionally, and the accumulator is what is handed on
+                okp = len(ors) == 1 and not branches and not natural_loops(g) and (gr == "param2" or gr.startswith("BitOr"))
+                if okp and gr == "param2":
+                    gx = Exprs(g)
+                    tgt = canon(gx.operand(ors[0].args[0]))
+                    okp = tgt == "param2"
+            passes.append(f)
+            res.inst(N2, "pass|%s" % f.name, f.where, True, "fold over all rules ORing each flag: %s" % okp)
+            if not okp:
+                res.violate(N2, "pass|%s" % f.name, f.where, "a fixpoint pass must visit every rule and OR each rule's flag into the result; found fold `%s`" % r[:200])
         res.floor("fixpoint pass functions", len(passes), 1)
         # the driver loop: exits only when the pass flag is false
         drivers = [f for f in first if natural_loops(f) and any((c.local and mir.fns[c.rkey] in passes) for c in f.calls())]
@@ -360,7 +385,11 @@ def run_rules(ctx, res):
         if not (okc and popped):
             res.violate(N4, "closure-skip", f.where, "the closure worklist must skip exactly the items already contained, and for every other popped item enqueue its implied items and insert it")
     aug = [f for f in stage if f.kind == "Fn" and len(f.inputs) == 2 and f.inputs[0]["head"].endswith("::FirstSet") and f.inputs[1]["head"].endswith("::Lookahead")]
-    dec = [f for f in aug if len([c for c in f.calls() if c.local]) == 2]
+    def eps_switches(f):
+        fx_ = Exprs(f)
+        return [i for i, b in enumerate(f.blocks) if not b["cleanup"] and b["term"]["k"] == "switch" and canon(fx_.operand(b["term"]["discr"])) == "param1.contains_epsilon"]
+
+    dec = [f for f in aug if eps_switches(f)]
     if len(dec) != 1:
         res.floor("anchor: look-ahead augmentation decision", len(dec), 1)
     else:
@@ -369,21 +398,43 @@ def run_rules(ctx, res):
         cdt = control_deps_transitive(f)
         oka = True
         desc = []
-        for c in [c for c in f.calls() if c.local]:
-            g = mir.fns[c.rkey]
-            takes_la = len(g.inputs) == 2
-            guards = [(canon(fx.operand(f.blocks[a]["term"]["discr"])), [v for (v, tb) in f.blocks[a]["term"]["targets"] if tb == s_]) for (a, s_) in cdt.get(c.bb, ()) if f.blocks[a]["term"]["k"] == "switch"]
-            desc.append((g.name, guards))
-            if len(guards) != 1 or guards[0][0] != "param1.contains_epsilon":
-                oka = False
-            else:
-                on_true = guards[0][1] != [0]
-                if takes_la != on_true:
+        sw = eps_switches(f)
+        others = [i for i, b in enumerate(f.blocks) if not b["cleanup"] and b["term"]["k"] == "switch" and i not in sw]
+        if len(sw) != 1 or others:
+            oka = False
+            desc.append("branches: %d on contains_epsilon, %d others" % (len(sw), len(others)))
+        else:
+            a = sw[0]
+            t = f.blocks[a]["term"]
+            succs = []
+            for (v, tb) in t["targets"]:
+                succs.append((tb, [v]))
+            if t.get("otherwise") is not None:
+                succs.append((t["otherwise"], []))
+            for (s_, vs) in succs:
+                on_true = vs != [0]
+                mine = [bi for bi in range(len(f.blocks)) if (a, s_) in cdt.get(bi, ()) and not f.blocks[bi]["cleanup"]]
+                val = None
+                for d in f.defs(0):
+                    if d[1] not in mine:
+                        continue
+                    if d[0] == "assign" and not d[3]["pl"]["p"]:
+                        val = canon(fx.rvalue(d[3]["rv"], 0, ()))
+                    elif d[0] != "assign" and not d[2]["dest"]["p"]:
+                        c = Call(f, d[1], d[2])
+                        val = canon(E("call", c.rpath, [fx.operand(a_) for a_ in d[2]["args"]], site=c))
+                if val is None:
                     oka = False
-            if takes_la:
-                gret = canon(Exprs(g).local(0))
-                if not re.search(r"Iterator::chain\(.*param1\.terminals.*iter::once\(param2\)\)", gret):
-                    oka = False
+                    desc.append(("true" if on_true else "false", None))
+                    continue
+                inl = inline_helpers(mir, val)
+                desc.append(("true" if on_true else "false", inl[:160]))
+                if on_true:
+                    if not re.search(r"Iterator::chain\(.*param1\.terminals.*iter::once\(param2\)\)", inl):
+                        oka = False
+                else:
+                    if "param2" in inl or not ("param1.terminals" in inl or re.match(r"^[\w:]+\(param1\)$", inl)):
+                        oka = False
         res.inst(N4, "lookahead-augmentation", f.where, True, "%s" % desc)
         if not oka:
             res.violate(N4, "lookahead-augmentation", f.where, "the item's own look-ahead must be added to FIRST(beta) exactly when FIRST(beta) contains epsilon (and all FIRST terminals are kept); found %s" % desc)
@@ -582,7 +633,12 @@ def run_rules(ctx, res):
         for (g, cc) in callers:
             gx = Exprs(g)
             sym = canon(gx.operand(cc.args[2]))
-            okl = bool(re.match(r"^\(Iterator@Iter::next\(IntoIterator@Oset::into_iter\(UnnormalizedMachineBuilder::get_symbols_right_of_dot\(param1, param2\)\)\) as Some\)\.0$", sym)) and canon(gx.operand(cc.args[1])) == "param2"
+            st_arg = canon(gx.operand(cc.args[1]))
+            cctx = closure_loop_context(mir, g) if g.kind == "Closure" else None
+            if cctx is not None:
+                # `symbols.iter().for_each(|s| ..)`: the same loop, read in the parent's terms
+                sym, st_arg = lift_closure_canon(sym, cctx), lift_closure_canon(st_arg, cctx)
+            okl = bool(re.match(r"^\(Iterator@Iter::next\(IntoIterator@\w+::into_iter\((slice::iter\()?(Deref@Oset::deref\()?UnnormalizedMachineBuilder::get_symbols_right_of_dot\(param1, param2\)\)?\)?\)\) as Some\)\.0$", sym)) and st_arg == "param2"
             res.inst(N5, "per-symbol-loop", cc.where, True, sym[:160])
             if not okl:
                 res.violate(N5, "per-symbol-loop", cc.where, "every symbol right of a dot in the expanded state must get a transition (loop over the unfiltered symbol set of that state); found symbol `%s`" % sym[:200])
